@@ -1,8 +1,7 @@
 (* Heap/UniqExt.v - C05: ID uniqueness through the extended calls - block additions, times, element copy(),
-   Document::deepCopy, deepCopyTo, updateBlockFormatDurations, route tracing.  (reassignIds rewrites IDs through set(Id),
-   whose shape condition needs the kinds of the document's members at every call site; it is left to C14 and the run.) *)
+   Document::deepCopy, deepCopyTo, reassignIds (Heap/ReassignU.v), updateBlockFormatDurations, route tracing. *)
 From Adm Require Import Heap.Frame Heap.More Heap.Writes Heap.PlanChecks Heap.Sync Heap.SyncFull Heap.WF Heap.Ids Heap.Remove
-  Heap.Uniq Heap.Copy Heap.Reassign Heap.ReassignFull Heap.WFExt Heap.CopyRefs Heap.CopyInv Heap.Joint.
+  Heap.Uniq Heap.Copy Heap.Reassign Heap.ReassignFull Heap.ReassignU Heap.WFExt Heap.CopyRefs Heap.CopyInv Heap.Joint.
 Local Open Scope N_scope.
 
 Lemma U_put_new s h e' : get_elem s h = None -> eparent e' = None -> okid (ekind e') (eid e') = true -> U s -> U (put_elem s h e').
@@ -152,12 +151,11 @@ Proof.
   - intros a ea Ha. destruct (Ge a ea Ha) as (eb & K & I & [[_ Hb] | (h & _ & _ & Hb)]); rewrite K, I; apply (Ok _ _ Hb).
 Qed.
 
-Definition is_reassign (o : xop) : bool := match o with XReassign _ => true | _ => false end.
 Definition xop_ok (s : state) (o : xop) : Prop := match o with XBase b => op_ok s b | _ => True end.
 
-Theorem uniq_xstep o s s' v : is_reassign o = false -> G s -> U s -> xop_ok s o -> xexec P o s = (s', inl v) -> U s'.
+Theorem uniq_xstep o s s' v : G s -> U s -> xop_ok s o -> xexec P o s = (s', inl v) -> U s'.
 Proof.
-  intros Hr Hg Hu Hok H. pose proof Hg as (W & _ & _). destruct o; cbn [xexec] in H; try discriminate.
+  intros Hg Hu Hok H. pose proof Hg as (W & _ & _). destruct o; cbn [xexec] in H.
   - apply bind_ok in H. destruct H as (v0 & s1 & H1 & H2). inversion H2; subst.
     eapply (uniq_step P Hrem Htyped Huid); eauto.
   - apply xlift_ok in H. destruct H as [a H]. eapply add_block_U; eauto.
@@ -165,6 +163,7 @@ Proof.
   - apply xlift_ok in H. destruct H as [a H]. eapply copy_elem_U; eauto.
   - apply xlift_ok in H. destruct H as [a H]. eapply deep_copy_U; eauto.
   - apply xlift_ok in H. destruct H as [a H]. eapply deep_copy_to_U; eauto.
+  - apply xlift_ok in H. destruct H as [a H]. eapply reassign_ids_U; eauto.
   - destruct (get_elem s p); [|discriminate]. destruct (trace (fuel_of s) s p []); inversion H; subst; exact Hu.
   - apply xlift_ok in H. destruct H as [a H]. eapply fix_durations_U; eauto.
 Qed.
@@ -188,12 +187,11 @@ Proof.
   - destruct (xexec P o s) as [s1 [v|e]]; auto.
 Qed.
 
-Theorem uniq_xinvariant : forall ops s s', forallb (fun o => negb (is_reassign o)) ops = true -> G s -> U s ->
-  xshaped_run ops s -> xrun_succ P ops s = Some s' -> U s'.
+Theorem uniq_xinvariant : forall ops s s', G s -> U s -> xshaped_run ops s -> xrun_succ P ops s = Some s' -> U s'.
 Proof.
-  induction ops as [|o r IH]; intros s s' Hn Hg Hu Hok H; simpl in *; [inversion H; subst; auto|].
-  apply andb_true_iff in Hn. destruct Hn as [Hn1 Hn2]. apply negb_true_iff in Hn1. destruct Hok as [Ho Hrest].
-  destruct (xexec P o s) as [s1 [v|e]] eqn:E; [|discriminate]. apply (IH s1 s' Hn2); auto.
+  induction ops as [|o r IH]; intros s s' Hg Hu Hok H; simpl in *; [inversion H; subst; auto|].
+  destruct Hok as [Ho Hrest].
+  destruct (xexec P o s) as [s1 [v|e]] eqn:E; [|discriminate]. apply (IH s1 s'); auto.
   - eapply (joint_step P Hplan Hrem Htyped Huid); eauto.
   - eapply uniq_xstep; eauto.
 Qed.
